@@ -177,7 +177,8 @@ def run(case, ctx):
         if pert == "channel" and case["b"].get("relabel") != 5:
             exp_equal = None  # multi-channel relabel of a single note: the channel flag is outside the claim
         if pert in ("channel_move", "channel_swap"):
-            exp_equal = None if fl[0] else False   # some note's channel differs: unequal unless channels are ignored
+            exp_equal = None   # decided by the contract's oracle on every call (a swap between two notes that differ only in
+            # velocity is no difference at all once velocities are ignored — found by the thorough tier)
         if exp_equal is True:
             LOG.n("c17.expected_equal_calls", 2)
         elif exp_equal is False:
